@@ -381,6 +381,95 @@ theorem spec_load_last_write (p : Policy) (i : Nat) (st : σ) (dl : Nat) (h : Li
     · exact this
     · cases h <;> simp [runSpec]
 
+/-! ## `change_id` takes effect atomically or not at all (backend level) -/
+
+theorem agree_self (now : Nat) (t : Tbl σ) : Agree now t (fun i => get t i) := fun _ => rfl
+
+/-- Spec level: either `change_id` answers `Ok`, and then the live record of `o` is now the live
+    record of `n`, `o` is gone and nothing else moved; or it answers an error and nothing changed. -/
+theorem spec_changeId_cases (p : Policy) (now o n : Nat) (a : AMap σ) :
+    let post := (specStep p now (.changeId o n) a).1
+    ((specStep p now (.changeId o n) a).2 = .ok →
+        ∃ r, a.liveAt now o = some r ∧ post.liveAt now n = some r
+          ∧ (n ≠ o → post.liveAt now o = none) ∧ ∀ j, j ≠ o → j ≠ n → post j = a j)
+    ∧ ((specStep p now (.changeId o n) a).2 ≠ .ok → post = a) := by
+  simp only [specStep]
+  cases ho : a.liveAt now o with
+  | none => simp
+  | some r =>
+    by_cases hno : n = o
+    · subst hno
+      simp only [if_true]
+      refine ⟨fun _ => ⟨r, rfl, ho, fun h => absurd rfl h, fun _ _ _ => trivial⟩, fun _ => trivial⟩
+    · simp only [hno, if_false]
+      cases hn : a.liveAt now n with
+      | some r2 => simp
+      | none =>
+        have := spec_changeId_atomic p now o n a r ho hno hn
+        simp only [specStep, ho, hno, if_false, hn] at this
+        refine ⟨fun _ => ⟨r, rfl, this.2.1, fun _ => this.2.2.1, this.2.2.2⟩, fun h => absurd rfl h⟩
+
+theorem absRes_ok_iff (g now : Nat) (r : Res σ) : absRes g now r = .ok ↔ r = .ok := by
+  cases r with
+  | loaded o => cases o with
+    | none => simp [absRes]
+    | some x => obtain ⟨a, b⟩ := x; simp [absRes]
+  | _ => simp [absRes]
+
+/-- **C13 (4), memory**: a `change_id` that answers `Ok` moves the live record of `o` (state and
+    deadline) to `n` in one step — at no instant are both or neither visible — and leaves every
+    other id's live record alone; a `change_id` that fails changes no live record. -/
+theorem mem_changeId_atomic (now o n : Nat) (t : Tbl σ) :
+    let post := (memStep now (.changeId o n) t).1
+    ((memStep now (.changeId o n) t).2 = .ok →
+        ∃ r, tblLive t now o = some r ∧ tblLive post now n = some r
+          ∧ (n ≠ o → tblLive post now o = none) ∧ ∀ j, j ≠ o → j ≠ n → tblLive post now j = tblLive t now j)
+    ∧ ((memStep now (.changeId o n) t).2 ≠ .ok → ∀ j, tblLive post now j = tblLive t now j) := by
+  obtain ⟨h1, h2⟩ := mem_sim (agree_self now t) (.changeId o n)
+  rw [Nat.div_one] at h1 h2
+  have hc := spec_changeId_cases (Policy.strict false) now o n (fun i => get t i)
+  simp only [absOp] at h1 h2
+  constructor
+  · intro hok
+    have : (specStep (Policy.strict false) now (.changeId o n) (fun i => get t i)).2 = .ok := by
+      rw [← h1, hok]; rfl
+    obtain ⟨r, e1, e2, e3, e4⟩ := hc.1 this
+    refine ⟨r, e1, (h2 n).trans e2, fun hne => (h2 o).trans (e3 hne), fun j hj1 hj2 => ?_⟩
+    rw [h2 j, liveAt_eq, e4 j hj1 hj2]; rfl
+  · intro hne j
+    have : (specStep (Policy.strict false) now (.changeId o n) (fun i => get t i)).2 ≠ .ok := by
+      rw [← h1]; intro h; exact hne ((absRes_ok_iff 1 now _).mp h)
+    rw [h2 j, hc.2 this]; rfl
+
+/-- **C13 (4), SQLite**: same for the single `UPDATE sessions SET id = ? …` statement, at second
+    resolution — for every table, including those on which finding 2 strikes (there the call
+    fails, and then changes nothing). -/
+theorem sqlite_changeId_atomic (now o n : Nat) (t : Tbl σ) :
+    let post := (sqlStep now (.changeId o n) t).1
+    ((sqlStep now (.changeId o n) t).2 = .ok →
+        ∃ r, tblLive t (now / 1000) o = some r ∧ tblLive post (now / 1000) n = some r
+          ∧ (n ≠ o → tblLive post (now / 1000) o = none)
+          ∧ ∀ j, j ≠ o → j ≠ n → get post j = get t j)
+    ∧ ((sqlStep now (.changeId o n) t).2 ≠ .ok → post = t) := by
+  simp only [sqlStep, sqlSel_eq]
+  cases ho : tblLive t (now / 1000) o with
+  | none => simp
+  | some r =>
+    by_cases hno : n = o
+    · subst hno
+      simp only [if_true]
+      exact ⟨fun _ => ⟨r, rfl, ho, fun h => absurd rfl h, fun _ _ _ => trivial⟩, fun h => absurd rfl h⟩
+    · simp only [hno, if_false]
+      cases hg : get t n with
+      | some r2 => simp
+      | none =>
+        have hl := (tblLive_some ho).2
+        have hon : ¬ o = n := fun h => hno h.symm
+        refine ⟨fun _ => ⟨r, rfl, ?_, fun _ => ?_, fun j h1 h2 => ?_⟩, fun h => absurd rfl h⟩
+        · simp [tblLive, get_put, liveOpt, live, hl]
+        · simp [tblLive, get_put, get_erase, hon, liveOpt]
+        · simp [get_put, get_erase, h1, h2]
+
 /-! ## Non-vacuity: the hypotheses are satisfiable on non-trivial instances -/
 
 -- a memory history with expiry, a collision, a rename and a batched purge
